@@ -1399,9 +1399,9 @@ class LogixDriver(CIPDriver):
     def _send_read_fragmented(
         self, request: ReadTagFragmentedRequestPacket
     ) -> ReadTagFragmentedResponsePacket:
+        responses = []
         if not request.error:
             offset = 0
-            responses = []
             while offset is not None:
                 response: ReadTagFragmentedResponsePacket = super().send(request)
                 responses.append(response)
@@ -1425,15 +1425,19 @@ class LogixDriver(CIPDriver):
                 return final_response
 
         failed_response = ReadTagFragmentedResponsePacket(request, None)
-        failed_response._error = request.error or "One or more fragment responses failed"
+        failed_response._error = (
+            request.error
+            or next((resp.error for resp in responses if not resp), None)
+            or "One or more fragment responses failed"
+        )
         self.__log.debug(f"Reassembled Response: {failed_response!r}")
         return failed_response
 
     def _send_write_fragmented(
         self, request: WriteTagFragmentedRequestPacket
     ) -> WriteTagFragmentedResponsePacket:
+        responses = []
         if not request.error:
-            responses = []
             request.build_message()
             segment_size = self.connection_size - (len(request.message) - len(request.value))
             segments = (
@@ -1456,7 +1460,11 @@ class LogixDriver(CIPDriver):
                 return final_response
 
         failed_response = WriteTagFragmentedResponsePacket(request, None)
-        failed_response._error = request.error or "One or more fragment responses failed"
+        failed_response._error = (
+            request.error
+            or next((resp.error for resp in responses if not resp), None)
+            or "One or more fragment responses failed"
+        )
         self.__log.debug(f"Reassembled Response: {failed_response!r}")
         return failed_response
 
